@@ -64,6 +64,11 @@ fn main() {
         std::process::exit(checks::c19::print_transcript(args.get(3).map(|s| s.as_str()).unwrap_or("")));
     }
 
+    if args[2] == "--deep-child" {
+        // child process of C04's deep_search_process
+        std::process::exit(checks::c04::deep_child(args.get(3).map(|s| s.as_str()).unwrap_or("")));
+    }
+
     if args[2] == "--replay" {
         if args.len() < 4 {
             usage();
